@@ -168,12 +168,11 @@ Example c06_blockdiag_example :
   let td := Node KList [Node KList [Leaf tt; Leaf tt]; Node (KDict ["k"%string]) [Leaf tt]] in
   let d : xop := Prim 3 CDiagonal s2 s2 (PDiag 0 [2 # 1; 4 # 1]%Q) in
   let e : xop := Block 9 BDiag td [Homoth 1 (qc 2) s2; d; Homoth 2 (qc (-4)) s2] in
+  let e1 : xop := Block 0 BDiag td [Homoth 0 (Q2Qc (1 # 2)) s2; Wrap 0 WDiagInv d; Homoth 0 (Q2Qc (-1 # 4)) s2] in
+  let e2 : xop := Block 0 BDiag td [Homoth 0 (qc 2) s2; d; Homoth 0 (qc (-4)) s2] in
   inv_guard Exec.K keqb k0 regular_all e = true /\ plain Exec.K e = true /\
-  x_inverse_r default_order e =
-    Ok (Block 0 BDiag td [Homoth 0 (Q2Qc (1 # 2)) s2; Wrap 0 WDiagInv d; Homoth 0 (Q2Qc (-1 # 4)) s2]) /\
-  (forall e', x_inverse_r default_order e = Ok e' -> square_blocks Exec.K e' = true /\
-     x_inverse_r default_order e' = Ok (Block 0 BDiag td [Homoth 0 (qc 2) s2; d; Homoth 0 (qc (-4)) s2])).
-Proof. vm_compute. repeat split; intros e' H; injection H as <-; vm_compute; repeat split. Qed.
+  x_inverse_r default_order e = Ok e1 /\ square_blocks Exec.K e1 = true /\ x_inverse_r default_order e1 = Ok e2.
+Proof. vm_compute. repeat split. Qed.
 (* refusal of a non-square dense operator and of a block-diagonal operator with a non-square block;
    a zero scalar fails the guard *)
 Example c06_refusal_example :
